@@ -27,9 +27,9 @@ theorem nextTlv_pack (t : Tlv) (rest : Bytes) (ht : t.type < 128) (hl : t.data.l
   have ty : (t.type * 512 + t.data.length) / 512 = t.type := by omega
   have ln : (t.type * 512 + t.data.length) % 512 = t.data.length := by omega
   simp only [nextTlv, b0, b1, tl, ty, ln, List.length_cons, List.length_append]
-  have c1 : ¬ (t.data.length + rest.length + 1 + 1 < t.data.length) := by omega
+  have c1 : ¬ (t.data.length + rest.length + 1 + 1 < 2 + t.data.length) := by omega
   have tk : (t.data ++ rest).take t.data.length = t.data := List.take_left' rfl
-  rw [if_neg c1, tk, if_neg (Nat.lt_irrefl _), hok]
+  rw [if_neg c1, tk, hok]
 
 theorem drop_pack (t : Tlv) (rest : Bytes) : (packTlv t ++ rest).drop (2 + t.data.length) = rest :=
   List.drop_left' (packTlv_length t)
